@@ -387,22 +387,25 @@ func (v *authorizer) loadPoliciesV2(pbPolicies *pb.AuthorizerPolicies) error {
 	if err := checkDeclaredSymbols(content, symbols); err != nil {
 		return fmt.Errorf("verifier: load policies v1: %w", err)
 	}
-	v.symbols = symbols
 
-	for _, pbFact := range pbPolicies.Facts {
-		fact, err := protoFactToTokenFactV2(pbFact)
+	// The serialized policies are written with their own symbol table. Like the blocks of a
+	// token in Authorize, their facts and rules are read with that table and written again
+	// with the authorizer's: the authorizer's table is kept, so that facts and rules it
+	// already holds keep their meaning.
+	for _, dlFact := range *content.facts {
+		fact, err := fromDatalogFact(symbols, dlFact)
 		if err != nil {
-			return fmt.Errorf("verifier: load policies v1: failed to convert datalog fact: %w", err)
+			return fmt.Errorf("verifier: load policies v1: failed to convert fact: %w", err)
 		}
-		v.world.AddFact(*fact)
+		v.world.AddFact(fact.convert(v.symbols))
 	}
 
-	for _, pbRule := range pbPolicies.Rules {
-		rule, err := protoRuleToTokenRuleV2(pbRule)
+	for _, dlRule := range content.rules {
+		rule, err := fromDatalogRule(symbols, dlRule)
 		if err != nil {
-			return fmt.Errorf("verifier: load policies v1: failed to convert datalog rule: %w", err)
+			return fmt.Errorf("verifier: load policies v1: failed to convert rule: %w", err)
 		}
-		v.world.AddRule(*rule)
+		v.world.AddRule(rule.convert(v.symbols))
 	}
 
 	v.checks = make([]Check, len(pbPolicies.Checks))
@@ -411,7 +414,7 @@ func (v *authorizer) loadPoliciesV2(pbPolicies *pb.AuthorizerPolicies) error {
 		if err != nil {
 			return fmt.Errorf("verifier: load policies v1: failed to convert datalog check: %w", err)
 		}
-		check, err := fromDatalogCheck(v.symbols, *dlCheck)
+		check, err := fromDatalogCheck(symbols, *dlCheck)
 		if err != nil {
 			return fmt.Errorf("verifier: load policies v1: failed to convert check: %w", err)
 		}
@@ -437,7 +440,7 @@ func (v *authorizer) loadPoliciesV2(pbPolicies *pb.AuthorizerPolicies) error {
 				return fmt.Errorf("verifier: load policies v1: failed to convert datalog policy rule: %w", err)
 			}
 
-			rule, err := fromDatalogRule(v.symbols, *dlRule)
+			rule, err := fromDatalogRule(symbols, *dlRule)
 			if err != nil {
 				return fmt.Errorf("verifier: load policies v1: failed to convert policy rule: %w", err)
 			}
